@@ -132,7 +132,12 @@ def one(entry, lane, keep=False):
     except Exception as e:
         return entry["id"], False, "SETUP: %s" % e, {}
     try:
-        res = run_checks(d, entry["props"], lane, entry=entry)
+        # two mut.py processes may run at the same time: a lane (its target dir and fact files) is used by one entry at a time
+        import fcntl
+        os.makedirs(os.path.join(VERIF, ".work", "lane%d" % lane), exist_ok=True)
+        with open(os.path.join(VERIF, ".work", "lane%d" % lane, ".lock"), "w") as lk:
+            fcntl.flock(lk, fcntl.LOCK_EX)
+            res = run_checks(d, entry["props"], lane, entry=entry)
         ok, text = judge(entry, res)
         return entry["id"], ok, text + " (%.0fs)" % (time.time() - t0), res
     finally:
